@@ -212,17 +212,23 @@ func containsAll(site, parts string) bool {
 // lpDirected: windows found by reading the code or by earlier findings; they are run first in
 // every lock-point run. A site is named by parts of its text (function, kind, lock), not by
 // its line. If the site does not exist (any more) the round simply has no preemption.
-var lpDirected = []struct{ a, site, b string }{
-	{"W", "shard.WriteRows:|before RLock s.mu", "X"},                     // write between its closing check and its lock, Close
-	{"Q", "MmsTables.GetBothFilesRef:|after|RUnlock m.mu", "C"},          // query between the file lists and whatever follows, full compaction
-	{"Q", "MmsTables.GetBothFilesRef:|after|RUnlock m.mu", "M"},          // … out-of-order merge
-	{"Q", "shard.cloneReaders:|before RLock s.snapshotLock", "F"},        // query about to take its view, flush
-	{"F", "tsImmTableImpl.AddBothTSSPFiles:|after|RUnlock m.mu", "Q"},    // flush between publish and drop, query
-	{"M", "MmsTables.deleteUnorderedFiles|after|Unlock tfs.lock", "F"},   // merge emptied the out-of-order list, flush publishes
-	{"Q", "MmsTables.getFiles:|before Ref f", "C"},                       // query about to reference a listed file, full compaction
-	{"F", "tsstoreImpl.writeSnapshot:|after Unlock s.snapshotLock", "W"}, // flush after switch, write
-	{"C", "MmsTables.ReplaceFiles:|before Lock fs.lock", "Q"},            // compaction about to swap, query
-	{"Q", "TSIndexInfoImpl|Unref", "X"},                                  // query releasing, Close
+var lpDirected = []struct {
+	a, site, b string
+	nth        int // stop at the nth occurrence of the site (0 = first)
+}{
+	{"W", "shard.WriteRows:|before RLock s.mu", "X", 0},                     // write between its closing check and its lock, Close
+	{"Q", "MmsTables.GetBothFilesRef:|after|RUnlock m.mu", "C", 0},          // query between the file lists and whatever follows, full compaction
+	{"Q", "MmsTables.GetBothFilesRef:|after|RUnlock m.mu", "M", 0},          // … out-of-order merge
+	{"Q", "shard.cloneReaders:|before RLock s.snapshotLock", "F", 0},        // query about to take its view, flush
+	{"F", "tsImmTableImpl.AddBothTSSPFiles:|after|RUnlock m.mu", "Q", 0},    // flush between publish and drop, query
+	{"M", "MmsTables.deleteUnorderedFiles|after|Unlock tfs.lock", "F", 0},   // merge emptied the out-of-order list, flush publishes
+	{"Q", "MmsTables.getFiles:|before Ref f", "C", 0},                       // query about to reference a listed file, full compaction
+	{"F", "tsstoreImpl.writeSnapshot:|after Unlock s.snapshotLock", "W", 0}, // flush after switch, write
+	{"C", "MmsTables.ReplaceFiles:|before Lock fs.lock", "Q", 0},            // compaction about to swap, query
+	{"Q", "TSIndexInfoImpl.unRefFiles:|before Unref file", "X", 0},          // query releasing its files, Close
+	{"Q", "MemTable.getSortedRecSafe:|after RUnlock t.mu", "W", 2},          // query between two series cursors, write
+	{"C", "tsspFile.Path:|before RLock f.mu", "M", 2},                       // full-compaction plan walking the ordered list, merge replaces it
+	{"C", "tsspFile.Path:|before RLock f.mu", "F", 2},                       // … flush appends to it                                  // query releasing, Close
 }
 
 // quiescent: no goroutine of the process (other than the caller) is running, runnable or in a
@@ -728,6 +734,9 @@ func (l *lpRun) race() error {
 		dd := lpDirected[l.directed]
 		a, b = l.forcedOp(dd.a), l.forcedOp(dd.b)
 		filter, target = "~"+dd.site, 1
+		if dd.nth > 0 {
+			target = dd.nth
+		}
 		l.c.Count("lp:directed")
 	} else {
 		a = l.pickOp(true, nil)
@@ -1057,39 +1066,56 @@ func (l *lpRun) race() error {
 			for k := range got {
 				keys[k] = true
 			}
-			lo, hi := len(states), -1 // the batch prefixes the keys agree with
+			// per series: the cursor of a series copies the series' memtable rows under the series'
+			// own lock, the cursors of a query are opened one after the other - so the prefix of the
+			// batch that a query reflects may differ from series to series, but all keys of one
+			// series agree on one prefix
+			bySeries := map[string][]string{}
 			for _, k := range hx.SortedKeys(keys) {
-				gv, ok := got[k]
-				first, last := -1, -1
+				sr := strings.SplitN(k, ":", 2)[0]
+				bySeries[sr] = append(bySeries[sr], k)
+			}
+			prefixes := map[int]bool{}
+			for _, sr := range hx.SortedKeys(bySeries) {
+				found := -1
 				for j, st := range states {
-					sv, had := st[k]
-					if ok == had && gv == sv {
-						if first < 0 {
-							first = j
+					ok := true
+					for _, k := range bySeries[sr] {
+						gv, has := got[k]
+						sv, had := st[k]
+						if has != had || gv != sv {
+							ok = false
+							break
 						}
-						last = j
+					}
+					if ok {
+						found = j
+						break
 					}
 				}
-				if first < 0 {
-					l.viol(qLine, "torn_row", fmt.Sprintf("history %d (%s): %s raced with a write; key %s reads %q (present=%v), which it holds after no prefix of the batch: before the write %q, after it %q", l.idx, l.kinds.String(), q, k, gv, ok, states[0][k], states[len(states)-1][k]))
+				if found < 0 {
+					var detail []string
+					for _, k := range bySeries[sr] {
+						detail = append(detail, fmt.Sprintf("%s reads %q (before the write %q, after it %q)", k, got[k], states[0][k], states[len(states)-1][k]))
+					}
+					l.viol(qLine, "torn_row", fmt.Sprintf("history %d (%s): %s raced with a write; the rows of series %s are what the series holds after no prefix of the batch: %s", l.idx, l.kinds.String(), q, sr, strings.Join(detail, "; ")))
 					continue
 				}
-				if states[0][k] != states[len(states)-1][k] {
-					if first < lo {
-						lo = first
-					}
-					if last > hi {
-						hi = last
+				changed := false
+				for _, k := range bySeries[sr] {
+					if states[0][k] != states[len(states)-1][k] {
+						changed = true
 					}
 				}
-			}
-			wholeInWindow := w == b && frozen && inWindow
-			if wholeInWindow && qRows != specBefore.read(q.ms, q.asc) && qRows != specAfter.read(q.ms, q.asc) {
-				// the write ran from its start to its acknowledgement while the query was frozen
-				l.viol(qLine, "torn_read", fmt.Sprintf("history %d (%s): a whole write batch ran while %s was frozen, yet the query shows part of it: %q", l.idx, l.kinds.String(), q, qAns))
+				if changed {
+					prefixes[found] = true
+				}
 			}
 			if qRows != specBefore.read(q.ms, q.asc) && qRows != specAfter.read(q.ms, q.asc) {
 				l.c.Count("lp:batch-partly-visible")
+				if len(prefixes) > 1 {
+					l.c.Count("lp:cut-differs-between-series")
+				}
 			}
 		}
 	}
@@ -1196,6 +1222,9 @@ func runLPHistory(c *hx.Ctx, r *hx.Rng, idx int) error {
 	}
 	p.on = false
 	nontrivial := d.pausePoints > 0
+	if d.trace {
+		fmt.Fprintf(os.Stderr, "schedule of %d: %s\n", idx, strings.Join(d.sched, " "))
+	}
 	c.Case(fmt.Sprintf("lp:%d:%s", idx, d.kinds.String()), nontrivial)
 	if nontrivial && idx%7 == 0 {
 		from := 0
